@@ -508,8 +508,12 @@ func (m *Model) String() string {
 	return sb.String()
 }
 
+// ModelSchemaVersion is the schema version models are written with ("1.1"; C18 also uses "1.2": the
+// rules for tuples are the same for both).
+var ModelSchemaVersion = "1.1"
+
 func (m *Model) ToProto() *openfgav1.AuthorizationModel {
-	out := &openfgav1.AuthorizationModel{SchemaVersion: "1.1"}
+	out := &openfgav1.AuthorizationModel{SchemaVersion: ModelSchemaVersion}
 	for _, t := range m.Types {
 		td := &openfgav1.TypeDefinition{Type: t}
 		for _, r := range m.Rels {
